@@ -141,4 +141,108 @@ Section Dist.
         - exists (S n). econstructor; [exact Hxy|exact IHn]. }
       destruct (dist_anc_minimal fuel ta tb None Hin H (S n) Hc) as [d [Hd _]]. discriminate.
   Qed.
+
+  (* ---------------- path_to_ancestor ---------------- *)
+
+  (* consecutive parent links *)
+  Fixpoint links (x : N) (l : list N) : Prop :=
+    match l with [] => True | y :: t => parent_rel a x y /\ links y t end.
+
+  Lemma last_default (m : list N) : forall x y, m <> [] -> last m x = last m y.
+  Proof.
+    induction m as [|z m IH]; intros x y H; [congruence|]. destruct m as [|w m']; [reflexivity|].
+    change (last (z :: w :: m') x) with (last (w :: m') x). change (last (z :: w :: m') y) with (last (w :: m') y).
+    apply IH. discriminate.
+  Qed.
+
+  Lemma last_cons (y : N) l : forall x, last (y :: l) x = last l y.
+  Proof.
+    intros x. destruct l as [|z l]; [reflexivity|].
+    change (last (y :: z :: l) x) with (last (z :: l) x). apply last_default. discriminate.
+  Qed.
+
+  Lemma links_chain l : forall x, links x l -> chain a x (length l) (last l x).
+  Proof.
+    induction l as [|y l IH]; intros x H; [constructor|]. destruct H as [Hp Hl].
+    cbn [length]. rewrite last_cons.
+    econstructor; [exact Hp|apply IH, Hl].
+  Qed.
+
+  Lemma first_min_by_spec {A} (key : A -> N) (l : list A) x : first_min_by key l = Some x ->
+    In x l /\ forall y, In y l -> key x <= key y.
+  Proof.
+    revert x. induction l as [|z l IH]; intros x H; cbn [first_min_by] in H; [discriminate|].
+    destruct (first_min_by key l) as [m|] eqn:E.
+    - destruct (IH m eq_refl) as [Hin Hmin]. destruct (key m <? key z) eqn:Eb; injection H as <-.
+      + apply N.ltb_lt in Eb. split; [right; exact Hin|]. intros y [<-|Hy]; [lia|apply Hmin, Hy].
+      + apply N.ltb_ge in Eb. split; [left; reflexivity|]. intros y [<-|Hy]; [lia|]. specialize (Hmin y Hy). lia.
+    - injection H as <-. assert (l = []) as ->.
+      { destruct l as [|w l']; [reflexivity|]. cbn [first_min_by] in E.
+        destruct (first_min_by key l') as [m'|]; [destruct (key m' <? key w)|]; discriminate. }
+      split; [left; reflexivity|]. intros y [<-|[]]. lia.
+  Qed.
+
+  Lemma first_min_by_nonempty {A} (key : A -> N) (l : list A) : l <> [] -> exists x, first_min_by key l = Some x.
+  Proof.
+    destruct l as [|z l]; [congruence|]. intros _. cbn [first_min_by].
+    destruct (first_min_by key l) as [m|]; [destruct (key m <? key z)|]; eauto.
+  Qed.
+
+  Lemma somes_In' {A} (l : list (option A)) x : In x (somes l) <-> In (Some x) l.
+  Proof.
+    induction l as [|[y|] t IH]; cbn [somes In]; [tauto| |].
+    - rewrite IH. split; intros [H|H]; auto; left; congruence.
+    - rewrite IH. split; [auto|]. intros [H|H]; [discriminate|exact H].
+  Qed.
+
+  (* the returned path is a chain of parent links from the term to the target *)
+  Theorem path_anc_sound fuel : forall ta tb l, In ta (ar_terms a) ->
+    path_anc fuel o ta tb = Ok (Some l) -> links (t_id ta) l /\ last l (t_id ta) = t_id tb.
+  Proof.
+    induction fuel as [|f IH]; intros ta tb l Hin H; [discriminate|]. cbn [path_anc] in H.
+    destruct (N.eqb_spec (t_id ta) (t_id tb)) as [E|E].
+    { injection H as <-. cbn. auto. }
+    destruct (g_contains (t_id tb) (t_parents ta)) eqn:Ep.
+    { injection H as <-. apply (g_contains_spec _ _ (q_sorted_p o G ta Hin)) in Ep. cbn [links last].
+      split; [|reflexivity]. split; [exists ta; auto|exact I]. }
+    destruct (g_contains (t_id tb) (t_allp ta)); cbn [negb] in H; [|discriminate].
+    destruct (mapM _ (t_parents ta)) as [ps| | |] eqn:Em; cbn [bind] in H; try discriminate.
+    injection H as H. apply first_min_by_spec in H as [Hl _]. apply somes_In' in Hl.
+    destruct (Forall2_In_r _ _ _ (Some l) (mapM_Ok _ _ _ Em) Hl) as [p [Hp Hd]].
+    apply bind_Ok' in Hd as [tp [Hr Hd]]. apply bind_Ok' in Hd as [r [Hpa Hd]]. injection Hd as Hd.
+    destruct r as [l'|]; cbn [option_map] in Hd; [|discriminate]. injection Hd as <-.
+    destruct (resolve_In p tp Hr) as [Htp Hidp]. destruct (IH tp tb l' Htp Hpa) as [Hlk Hlast].
+    split.
+    - cbn [links]. split; [exists ta; rewrite Hidp; auto|exact Hlk].
+    - rewrite <- Hlast. apply last_cons.
+  Qed.
+
+  (* ... of minimal length: whenever the function returns, it returns a path for every reachable
+     target, and no chain is shorter *)
+  Theorem path_anc_minimal fuel : forall ta tb r, In ta (ar_terms a) ->
+    path_anc fuel o ta tb = Ok r ->
+    forall n, chain a (t_id ta) n (t_id tb) -> exists l, r = Some l /\ (length l <= n)%nat.
+  Proof.
+    induction fuel as [|f IH]; intros ta tb r Hin H n Hc; [discriminate|]. cbn [path_anc] in H.
+    destruct (N.eqb_spec (t_id ta) (t_id tb)) as [E|E].
+    { injection H as <-. exists []. split; [reflexivity|cbn; lia]. }
+    destruct n as [|n]; [inversion Hc; congruence|].
+    destruct (g_contains (t_id tb) (t_parents ta)) eqn:Ep.
+    { injection H as <-. exists [t_id tb]. split; [reflexivity|cbn; lia]. }
+    destruct (g_contains (t_id tb) (t_allp ta)) eqn:Ea; cbn [negb] in H.
+    2:{ exfalso. pose proof (chain_anc a _ _ _ Hc) as Hanc.
+        apply (q_exact o G ta Hin) in Hanc. apply (g_contains_spec _ _ (q_sorted_a o G ta Hin)) in Hanc. congruence. }
+    destruct (mapM _ (t_parents ta)) as [ps| | |] eqn:Em; cbn [bind] in H; try discriminate.
+    injection H as <-.
+    destruct (chain_first_step _ _ _ Hc) as [p [Hp Hc']].
+    pose proof (parent_of_term ta p Hin Hp) as Hpin.
+    destruct (Forall2_In_l _ _ _ p (mapM_Ok _ _ _ Em) Hpin) as [rp [Hrp Hd]].
+    apply bind_Ok' in Hd as [tp [Hr Hd]]. apply bind_Ok' in Hd as [r0 [Hpa Hd]]. injection Hd as <-.
+    destruct (resolve_In p tp Hr) as [Htp Hidp]. rewrite <- Hidp in Hc'.
+    destruct (IH tp tb r0 Htp Hpa n Hc') as [l0 [-> Hle]]. cbn [option_map] in Hrp.
+    assert (In (t_id tp :: l0) (somes ps)) as Hs by (apply somes_In'; exact Hrp).
+    destruct (first_min_by_nonempty (fun x : list N => Nlen x) (somes ps)) as [best Hb]; [intros E0; rewrite E0 in Hs; destruct Hs|].
+    exists best. split; [exact Hb|]. apply first_min_by_spec in Hb as [_ Hmin].
+    specialize (Hmin _ Hs). unfold Nlen in Hmin. cbn [length] in Hmin. lia.
+  Qed.
 End Dist.
